@@ -145,6 +145,13 @@ func (g *seqGen) name() string {
 		if n < 1 {
 			n = 1
 		}
+		if g.r.Intn(4) == 0 && n > 4 { // the limit counts bytes: a name of two-byte characters has half as many characters
+			body := strings.Repeat("\u00e9", (n-2)/2)
+			if (n-2)%2 == 1 {
+				body += "n"
+			}
+			return fmt.Sprintf("%02d", g.r.Intn(30)) + body
+		}
 		return fmt.Sprintf("%02d", g.r.Intn(30)) + strings.Repeat("n", n-2)
 	}
 	if g.cfg.Profile == "longnames" && p < 85 {
